@@ -22,7 +22,10 @@ Judge(rec) ==
   LET o == rec.obs
       argv == IF rec.kind = "errhelp" THEN Append(rec.words, <<DASH, DASH, 104, 101, 108, 112>>) ELSE rec.words
       s0 == S0(Decls[rec.decl], Scn(rec, argv), FTab)
-      f == Run(s0)
+      \* an earlier parse of the same parser (preWords) leaves nothing behind that the help of this one may show
+      f == IF "preWords" \in DOMAIN rec /\ rec.preWords # <<>>
+           THEN Run(ReuseState(Run(S0(Decls[rec.decl], Scn(rec, rec.preWords), FTab)), argv))
+           ELSE Run(s0)
       chain == f.chain
       pre == [k \in 1..Len(s0.opts) |-> IF k <= Len(s0.d.opts) THEN s0.opts[k].init ELSE <<>>]
       crashed == o.panic \/ o.timeout
